@@ -17,3 +17,5 @@ def run(ctx):
         small2.run(ctx, found=bool(ctx.violations))
         from .. import small1        # AVR / IRCAM / PAF / SVX / VOC / NIST container models (lean/SfModel/SmallSession.lean + one file each)
         small1.run(ctx, found=bool(ctx.violations))
+        from .. import alac           # CAF/ALAC: packet staging, pakt / kuki chunks, read / seek around the codec core (lean/SfModel/AlacFile.lean)
+        alac.run(ctx, "C04", 96 if q else 960)
